@@ -29,6 +29,14 @@ func (f govcHistFail) MarshalJSON() ([]byte, error) {
 	return nil, errors.New("marshaler failure")
 }
 
+type govcHistWriter struct {
+	n      int
+	closed bool
+}
+
+func (w *govcHistWriter) Write(p []byte) (int, error) { w.n += len(p); return len(p), nil }
+func (w *govcHistWriter) Close() error                { w.closed = true; return nil }
+
 type govcHistCtx struct{ V int }
 
 func (c govcHistCtx) MarshalJSON(ctx context.Context) ([]byte, error) {
@@ -226,6 +234,19 @@ func TestGovcBounded(t *testing.T) {
 			if got != base[i] {
 				record("probe-"+p.name+"-changed-after-"+d.name, fmt.Sprintf("baseline %.200q now %.200q", base[i], got))
 			}
+		}
+	}
+	// writers given to one call are not used by a later one
+	{
+		w := &govcHistWriter{}
+		_, _ = MarshalWithOption(val, DebugDOT(w)) // no Debug(): the graph is not written by this call
+		wrote := w.n
+		var dbg bytes.Buffer
+		_, _ = MarshalWithOption(map[string]int{"a": 1}, Debug(), DebugWith(&dbg))
+		_, _ = MarshalWithOption(map[string]int{"b": 2}, Debug())
+		n++
+		if w.n != wrote || w.closed {
+			record("debug-writer-of-an-earlier-call-used-by-a-later-call", fmt.Sprintf("%d bytes written to and closed=%v on a writer given only to an earlier call", w.n-wrote, w.closed))
 		}
 	}
 	// a type whose very first encode carries a field query: later plain encodes must not be narrowed by it
